@@ -217,6 +217,9 @@ func checkSeq(c Case, o *vf.Obs) error {
 					return fail("%s fails before sending (%s: %s) but its sample #%d is not marked failed: %s", where, s.PreFail, s.Msg, sx-1, sm)
 				}
 				st.fails[s.PreFail] = true
+				if s.PreFail == "template" && strings.Contains(s.Msg, "can't evaluate field") {
+					st.fails["template_by_captured_value"] = true
+				}
 				st.failPos[pos] = true
 				break
 			}
